@@ -25,12 +25,22 @@ from code_data import (
     Varname,
 )
 
-H = 20.0  # per-call horizon (seconds)
-H_BIG = 240.0
+H = 60.0  # per-call horizon (seconds): generous, it only turns non-termination into an observation
+H_BIG = 900.0
 
 
 def flat(d):
     return [i for b in d.blocks for i in b]
+
+
+def is_big(code):
+    return len(code.co_code) > 20000 or len(code.co_consts) > 5000 or len(code.co_names) > 5000 or len(code.co_varnames) > 5000
+
+
+def hz(code):
+    """Per-call horizon for work on this code object (generous for the huge ones: the
+    horizon exists to turn non-termination into an observation, not to time calls)."""
+    return H_BIG if is_big(code) else H
 
 
 def reach_of(code, raw, sym, stats):
@@ -178,9 +188,8 @@ class CodeMonitor(Monitor):
     def decode(self, case, code, stats):
         """from_code under the horizon; records a violation and returns None when it
         does not return a value."""
-        big = len(code.co_code) > 100000 or len(code.co_consts) > 20000 or len(code.co_names) > 20000
         try:
-            with horizon(H_BIG if big else H):
+            with horizon(hz(code)):
                 return CodeData.from_code(code)
         except HorizonHit:
             stats.horizon_hits += 1
@@ -237,8 +246,7 @@ class C01(CodeMonitor):
         d = self.decode(case, code, stats)
         if d is None:
             return
-        big = len(code.co_code) > 100000 or len(code.co_consts) > 20000 or len(code.co_names) > 20000
-        c2 = self.encode(case, d, stats, big=big)
+        c2 = self.encode(case, d, stats, big=is_big(code))
         if c2 is None:
             return
         if code_key(c2) == code_key(code):
@@ -457,7 +465,7 @@ class C14(CodeMonitor):
         if any(refs[i] > 1 for i in idxs):
             stats.reach["nested-referenced-twice"] += 1
         try:
-            with horizon(H):
+            with horizon(hz(code)):
                 direct = list(iter(d))
                 every = list(d.all_code_data())
         except HorizonHit:
